@@ -259,13 +259,13 @@ PROPS = {
     'C18': dict(
         level='other',
         functions=['localcider/backend/wang_landau.py:WangLandauMachine.' + f for f in ('getBinSize', 'getBinCenters', 'indexInsideRelevantRegion', '__run_flatcheck')],
-        thorough_functions=[],  # run_normal_WL: enabled once green
+        thorough_functions=[],  # 'localcider/backend/wang_landau.py:WangLandauMachine.run_normal_WL' belongs here once a complete run (all paths) has come back fully discharged: DESIGN 10.8
         lemmas=['cnt_le', 'cnt_full'],
         native='c18',
         explanation='PROVED (for every machine state satisfying the geometry invariant): bin centres are the midpoints (i+1/2)/nbins of the equal partition of [0,1]; the range test is relevant_min <= idx <= relevant_max; '
                     'the flat check declares flatness exactly when every bin of the range holds at least the criterion fraction of the mean count, and then (and only then) takes the square root of f, zeroes the histogram and advances the iteration, '
                     'otherwise leaves H, f and the iteration untouched; it always resets the step counter. '
-                    'THOROUGH TIER, the run loop of run_normal_WL under a loop-transition contract (one iteration, for every state, every proposal the move contracts allow and every pair of uniform draws): '
+                    'WRITTEN BUT NOT COUNTED IN ANY TIER (contracts/wl.py, DESIGN 10.7/10.8: every distinct obligation discharged on one path, the complete run over all ~50 paths was not finished in time), the run loop of run_normal_WL under a loop-transition contract (one iteration, for every state, every proposal the move contracts allow and every pair of uniform draws): '
                     'the acceptance probability is min(1, exp(g[old bin] - g[proposal bin])) for a proposal whose bin lies inside the range and 0 otherwise; the chain moves exactly when the acceptance draw is below it and then sits '
                     'in the proposal\'s bin (inside the range) with the proposal\'s kappa, otherwise nothing about the current state changes; on a counted step ln f is added to g of the occupied bin and to no other, and 1 to its histogram entry; '
                     'a flat check closes exactly every nflatchk-th step, looks at the range of the updated histogram and replaces f by sqrt(f) and zeroes H exactly when all bins of the range meet the criterion; '
@@ -276,7 +276,7 @@ PROPS = {
                     'from the recorded draws and compared step by step',
         assumptions=['flat check with an all-zero local histogram (numpy NaN semantics: "not flat") is an ASSUMED contract (__run_flatcheck#allzero); also covered by the monitored runs',
                      'text formatting/logging helpers (fprint*Vector, writeLog, mklog) have assumed contracts; os.path.join, time.time, print and number formatting are opaque',
-                     'run loop: the four moves are represented by their contracts; permute_cluster_charges has an ASSUMED contract (same length, class invariant); that the delta-max handed to a child is the child\'s own '
+                     'run-loop contract (not counted): the four moves are represented by their contracts; permute_cluster_charges has an ASSUMED contract (same length, class invariant); that the delta-max handed to a child is the child\'s own '
                      '(dmax_inv of the proposal) is ASSUMED at the call sites of all four moves (C17: bounded native check); numpy.argmin = first index of a minimal element, exp/ln/sqrt uninterpreted; '
                      'requires length >= 4 (block swap), nflatchk >= 1; exceptions of the moves (SequenceException, ValueError) may escape',
                      'whole-run behaviour: bounded monitored runs (8 configurations x 2/12 seeded tapes), capped runs are inconclusive'],
